@@ -1,10 +1,11 @@
 package engine
 
 import (
-	"go/token"
 	"fmt"
+	"go/token"
 	"go/types"
 	"reflect"
+	"sort"
 	"strings"
 	"unsafe"
 
@@ -322,18 +323,86 @@ func inlineCall(fn *ssa.Function, call *ssa.Call, f *ssa.Function) bool {
 	return true
 }
 
-// InlineUnknown inlines static calls to repository functions that are not in
-// known. It returns a description of what was inlined and removes helpers
-// that became unreferenced from the function lists.
-func (p *Prog) InlineUnknown(known map[string]bool) []string {
+// devirtBoundCalls rewrites calls of a bound-method value that is built right
+// there (what inlining a helper taking a `func(...)` parameter leaves when
+// the argument was `x.method`) into the direct method call.
+func devirtBoundCalls(fn *ssa.Function) bool {
+	changed := false
+	for _, b := range fn.Blocks {
+		for _, in := range b.Instrs {
+			call, ok := in.(*ssa.Call)
+			if !ok || call.Call.IsInvoke() {
+				continue
+			}
+			mc, ok := call.Call.Value.(*ssa.MakeClosure)
+			if !ok || len(mc.Bindings) != 1 {
+				continue
+			}
+			w, ok := mc.Fn.(*ssa.Function)
+			if !ok || !strings.HasPrefix(w.Synthetic, "bound method wrapper") || len(w.Blocks) != 1 || len(w.FreeVars) != 1 {
+				continue
+			}
+			for _, win := range w.Blocks[0].Instrs {
+				inner, ok := win.(*ssa.Call)
+				if !ok || inner.Call.IsInvoke() {
+					continue
+				}
+				target := inner.Call.StaticCallee()
+				if target == nil || len(inner.Call.Args) != len(call.Call.Args)+1 || inner.Call.Args[0] != ssa.Value(w.FreeVars[0]) {
+					continue
+				}
+				call.Call.Value = target
+				call.Call.Args = append([]ssa.Value{mc.Bindings[0]}, call.Call.Args...)
+				changed = true
+				break
+			}
+		}
+	}
+	if changed {
+		rebuildReferrers(fn)
+	}
+	return changed
+}
+
+// Normalise brings every repository function into the shape the rules read:
+// static calls to repository functions that are not in known are inlined
+// (callees first), loops over literal tables are unrolled, lookups in literal
+// maps are expanded into the decision they stand for, loads from literal
+// tables are forwarded and branches on constants folded, until nothing
+// changes. A helper that, once normalised itself, satisfies keep (it plays a
+// role the rules look for by what a function does) is left as a function and
+// not inlined into its callers. It returns descriptions of what was inlined
+// and of what was rewritten, and removes helpers that became unreferenced
+// from the function lists.
+func (p *Prog) Normalise(known map[string]bool, keep func(*ssa.Function) bool) (inlined, tables []string) {
 	var log []string
 	inlinedInto := map[*ssa.Function]bool{}
 	wasInlined := map[*ssa.Function]int{}
-	for pass := 0; pass < 6; pass++ {
-		changed := false
-		for _, fn := range p.AllFuncs {
-			for again := true; again; {
+	kept := map[*ssa.Function]bool{}
+	state := map[*ssa.Function]int{} // 1: being processed, 2: done
+	candidate := func(fn, f *ssa.Function) bool {
+		if f == nil || f == fn || f.Pkg == nil || p.ByPath[f.Pkg.Pkg.Path()] == nil {
+			return false
+		}
+		if strings.HasSuffix(f.Pkg.Pkg.Path(), "/mocks") {
+			return false
+		}
+		return !known[FuncName(f)] && inlinable(f)
+	}
+	var process func(fn *ssa.Function)
+	process = func(fn *ssa.Function) {
+		if state[fn] != 0 || fn.Blocks == nil {
+			return
+		}
+		state[fn] = 1
+		nLoops, nMaps, fwd := 0, 0, false
+		for round := 0; round < 6; round++ {
+			changed := false
+			for again, guard := true, 0; again && guard < 200; guard++ {
 				again = false
+				if inlinedInto[fn] {
+					devirtBoundCalls(fn)
+				}
 			scan:
 				for _, b := range fn.Blocks {
 					for _, in := range b.Instrs {
@@ -342,18 +411,12 @@ func (p *Prog) InlineUnknown(known map[string]bool) []string {
 							continue
 						}
 						f := StaticCallee(call)
-						if f == nil || f == fn || f.Pkg == nil || p.ByPath[f.Pkg.Pkg.Path()] == nil {
+						if !candidate(fn, f) {
 							continue
 						}
-						if strings.HasSuffix(f.Pkg.Pkg.Path(), "/mocks") {
-							continue
-						}
-						if known[FuncName(f)] || !inlinable(f) {
-							continue
-						}
-						// never inline a function into itself through a cycle
-						if inlinedInto[f] && callsTransitively(f, fn, 0) {
-							continue
+						process(f) // callees first: f is inlined in its final shape
+						if state[f] == 1 || kept[f] || !inlinable(f) {
+							continue // part of a cycle through fn, or plays a role of its own
 						}
 						if inlineCall(fn, call, f) {
 							log = append(log, FuncName(f)+" -> "+FuncName(fn))
@@ -365,21 +428,48 @@ func (p *Prog) InlineUnknown(known map[string]bool) []string {
 					}
 				}
 			}
-		}
-		if !changed {
-			break
-		}
-	}
-	if len(log) == 0 {
-		return nil
-	}
-	// arguments that were constants at the call site decide branches of the
-	// inlined body: fold them
-	for _, fn := range p.AllFuncs {
-		if inlinedInto[fn] {
-			for i := 0; i < 4 && foldConstBranches(fn); i++ {
+			n := UnrollTableLoops(fn)
+			m := ExpandMapLookups(fn)
+			nLoops += n
+			nMaps += m
+			if n > 0 || m > 0 {
+				changed = true
+			}
+			if inlinedInto[fn] || nLoops > 0 || nMaps > 0 {
+				for i := 0; i < 4; i++ {
+					a := forwardTableLoads(fn)
+					b := foldConstBranches(fn)
+					fwd = fwd || a
+					if !a && !b {
+						break
+					}
+					changed = true
+				}
+			}
+			if !changed {
+				break
 			}
 		}
+		if nLoops > 0 || nMaps > 0 {
+			tables = append(tables, fmt.Sprintf("%s: %d loop(s) unrolled, %d map lookup(s) expanded, loads forwarded=%v", FuncName(fn), nLoops, nMaps, fwd))
+		}
+		state[fn] = 2
+		if !known[FuncName(fn)] && keep != nil && keep(fn) {
+			kept[fn] = true
+		}
+	}
+	for _, fn := range p.AllFuncs {
+		if fn.Pkg != nil && strings.HasSuffix(fn.Pkg.Pkg.Path(), "/mocks") {
+			continue
+		}
+		process(fn)
+	}
+	for f := range kept {
+		tables = append(tables, fmt.Sprintf("%s: kept as a function (it plays a role the rules look for)", FuncName(f)))
+	}
+	sort.Strings(tables)
+	if len(log) == 0 && len(tables) == 0 {
+		return nil, nil
 	}
 	// drop helpers that are no longer referenced by anything
 	stillUsed := map[*ssa.Function]bool{}
@@ -420,7 +510,7 @@ func (p *Prog) InlineUnknown(known map[string]bool) []string {
 	}
 	p.Funcs = filter(p.Funcs)
 	p.AllFuncs = filter(p.AllFuncs)
-	return log
+	return log, tables
 }
 
 func isExportedEntry(f *ssa.Function) bool {
